@@ -11,12 +11,13 @@ EXTENDS Dispute, Json, TLC, TraceLib
 CONSTANT KNOWN
 Trace == ndJsonDeserialize("trace.ndjson")
 VARIABLES l, viol, hist, disp, payers, voters, bal, hold, dust,
+          rewarded,   \* inferred: <<family hash, account>> pairs that have been paid a voter reward in this history
           fam,       \* inferred: hash -> [in, out] coins that entered / left the dispute account for the family
           paidTimes, \* inferred: <<id, payer>> -> number of fee payments by that payer to that dispute id
           bondFam    \* inferred: hashes of families that received a fee payment from stake
-tvars == <<l, viol, hist, disp, payers, voters, bal, hold, dust, fam, paidTimes, bondFam>>
+tvars == <<l, viol, hist, disp, payers, voters, bal, hold, dust, fam, paidTimes, bondFam, rewarded>>
 Init == /\ l = 1 /\ viol = {} /\ hist = 0 /\ disp = <<>> /\ payers = <<>> /\ voters = <<>> /\ bal = Zero /\ hold = <<>> /\ dust = Zero
-        /\ fam = <<>> /\ paidTimes = <<>> /\ bondFam = {}
+        /\ fam = <<>> /\ paidTimes = <<>> /\ bondFam = {} /\ rewarded = {}
 
 ById(ds, id) == CHOOSE d \in Range(ds) : d.id = id
 Has(ds, id) == \E d \in Range(ds) : d.id = id
@@ -121,6 +122,8 @@ CheckClaim(e, post) ==
      (IF Has(disp, e.id) /\ Executed(d) THEN {} ELSE {"RewardOnlyAfterExecution"})
      \cup (IF mine # {} THEN {} ELSE {"RewardOnlyToAVoterOfTheDispute"})
      \cup (IF \A v \in Range(voters) : (v.id = e.id /\ v.who = e.who) => ~v.claimed THEN {} ELSE {"RewardClaimedExactlyOnce"})
+     \* ... whichever round the account voted in: one payment per family and account
+     \cup (IF Has(disp, e.id) /\ <<d.hash, e.who>> \in rewarded /\ ~IsZero(paid) THEN {"RewardClaimedExactlyOnce"} ELSE {})
      \cup (IF paid \preceq d.vreward /\ Monus(e.post.hold[e.who].bal, hold[e.who].bal) = paid THEN {} ELSE {"RewardIsPaidFromThePotToTheVoter"})
 
 \* shadow ledger per family
@@ -187,6 +190,7 @@ Step ==
         /\ fam' = f2
         /\ paidTimes' = IF payKey[1] = 0 THEN pt1 ELSE [k \in (DOMAIN pt1) \cup {payKey} |-> IF k = payKey THEN (IF payKey \in DOMAIN pt1 THEN pt1[payKey] ELSE 0) + 1 ELSE pt1[k]]
         /\ bondFam' = (IF reset THEN {} ELSE bondFam) \cup (IF e.ev \in {"ProposeDispute", "AddFeeToDispute"} /\ e.ok /\ e.bond /\ target # "none" THEN {target} ELSE {})
+        /\ rewarded' = (IF reset THEN {} ELSE rewarded) \cup (IF e.ev = "ClaimReward" /\ e.ok /\ Has(disp, e.id) THEN {<<ById(disp, e.id).hash, e.who>>} ELSE {})
         /\ viol' = IF reset THEN viol ELSE AddViol(viol, l, Check(e, f2))
         /\ l' = l + 1
 Spec == Init /\ [][Step]_tvars
